@@ -350,43 +350,51 @@ func (u *unitCtx) blockItem(it Item) {
 	}
 	var h where
 	if it.Occur == 0 {
-		if len(hits) != 1 {
-			u.fail(fd, "block %s: %d statements of %s assign to %s, expected exactly one", it.Name, len(hits), it.Func, it.Anchor)
-		}
-		h = hits[0]
+		h = hits[0] // uniqueness is checked after going up: several assignments inside one and the same run are one anchor
 	} else {
 		if it.Occur > len(hits) {
 			u.fail(fd, "block %s: only %d statements of %s assign to %s", it.Name, len(hits), it.Func, it.Anchor)
 		}
 		h = hits[it.Occur-1]
 	}
-	for k := 0; k < it.Up; k++ {
-		// the statement list that contains the statement holding the current list
-		found := false
-		for i := len(h.path) - 2; i >= 0; i-- {
-			var list []ast.Stmt
-			switch b := h.path[i].(type) {
-			case *ast.BlockStmt:
-				list = b.List
-			case *ast.CaseClause:
-				list = b.Body
-			}
-			if list == nil {
-				continue
-			}
-			for j, s := range list {
-				if s == h.path[i+1] {
-					h = where{list, j, h.path[:i+1]}
-					found = true
+	goUp := func(h where) where {
+		for k := 0; k < it.Up; k++ {
+			// the statement list that contains the statement holding the current list
+			found := false
+			for i := len(h.path) - 2; i >= 0; i-- {
+				var list []ast.Stmt
+				switch b := h.path[i].(type) {
+				case *ast.BlockStmt:
+					list = b.List
+				case *ast.CaseClause:
+					list = b.Body
+				}
+				if list == nil {
+					continue
+				}
+				for j, s := range list {
+					if s == h.path[i+1] {
+						h = where{list, j, h.path[:i+1]}
+						found = true
+						break
+					}
+				}
+				if found {
 					break
 				}
 			}
-			if found {
-				break
+			if !found {
+				u.fail(fd, "block %s: cannot go %d statement lists up from the anchor", it.Name, it.Up)
 			}
 		}
-		if !found {
-			u.fail(fd, "block %s: cannot go %d statement lists up from the anchor", it.Name, it.Up)
+		return h
+	}
+	h = goUp(h)
+	if it.Occur == 0 {
+		for _, o := range hits[1:] {
+			if g := goUp(o); len(g.list) == 0 || len(h.list) == 0 || &g.list[0] != &h.list[0] {
+				u.fail(fd, "block %s: %d statements of %s assign to %s in different statement lists, expected one anchor", it.Name, len(hits), it.Func, it.Anchor)
+			}
 		}
 	}
 	sig := u.p.info.Defs[fd.Name].(*types.Func).Type().(*types.Signature)
